@@ -3,4 +3,4 @@ From Cicada Require Import Base.Chars Model.Vars Model.VarsSpec.
 Extraction Language OCaml.
 Extraction "c09_model.ml" unquote is_env valid_ident unset_name_ok split_env_loose split_env_strict drain
   split_into_fields set_env get_env remove_env expand_lookup run_proc step run_hist
-  render spec_step known wf_op abs mkfx.
+  render spec_step wf_op abs.
